@@ -343,6 +343,10 @@ def run(ck):
     nstep = c03.run_setters(radio, agg, contract.SETTERS) + c03.run_getters(radio, agg, contract.GETTERS) + c03.run_pipes(radio, agg) + c03.run_address(radio, agg)
     nstep += c03.run_misc(radio, agg)
     c03.run_rest(radio, agg)        # closure: any other member that stores a shadow (read-only properties, helpers)
+    c03.run_carrier(radio, agg)     # start/stop_carrier_wave leave RF_SETUP's shadow equal to the register
+    # the subclass overrides the channel setter: its shadow must follow the register there too (R18.4, shared with C18)
+    from . import c18, ble as _ble
+    c18.channel_pairing(ck, agg, _ble.Ble(ck))
     agg.flush()
     ck.floor("R09.7", "setter/getter/pipe scenarios of the inductive step", nstep, 450)
     ck.floor("R09.1", "configuration registers", len(regmap.CONFIG_REGS), 22)
